@@ -61,7 +61,7 @@ def run(ctx):
 # ---- (A) ------------------------------------------------------------------------------------------------------
 def part_tensor_programs(ctx):
     rng = ctx.rng
-    nprog = 1200 if ctx.quick else 12000
+    nprog = 2500 if ctx.quick else 20000
     t0 = ctx.elapsed()
     budget = 28 if ctx.quick else 300
     from .c14 import OPS as OPS14
